@@ -161,7 +161,7 @@ def gen_C11(w, tier):
             if "Boom" in o:
                 return "an ambient entropy source (os.urandom / random / secrets) was used"
         for (kind, nb, r0, r1, r2, l1, l2, fb, st_a, st_b) in sc.meta["rec4"]:
-            if st_a.split()[3:] != st_b.split()[3:]:
+            if st_a.split()[1:] != st_b.split()[1:]:
                 return "the restored instance's secret scalar / message does not come from the saved state (fresh entropy drawn on restore?): %s vs %s" % (st_a[:90], st_b[:90])
             if r0 != "ok -":
                 return "the constructor drew entropy: %s" % r0
